@@ -171,7 +171,10 @@ def check_encoder_shape(model, col, R):
             forms = (f"math.ceil({vname0}.bit_length() / 7)", f"ceil({vname0}.bit_length() / 7)", f"({vname0}.bit_length() + 6) // 7", f"-(-{vname0}.bit_length() // 7)")
             cname = cnt.id if isinstance(cnt, ast.Name) else canon_
             conds = [n for n in ast.walk(lp) if isinstance(n, ast.If)]
-            last_ok = any(" ".join(unparse(c.test).split()) in (f"{lp.target.id} + 1 < {cname}", f"{lp.target.id} < {cname} - 1", f"{lp.target.id} != {cname} - 1") for c in conds) if isinstance(lp.target, ast.Name) else False
+            from ..sem import local_env as _le19, rtext as _rt19
+
+            env19 = {k: v for k, v in _le19(pi).items() if k != cname}
+            last_ok = any(_rt19(c.test, env19) in (f"{lp.target.id} + 1 < {cname}", f"{lp.target.id} < {cname} - 1", f"{lp.target.id} != {cname} - 1", f"{lp.target.id} + 1 != {cname}") for c in conds) if isinstance(lp.target, ast.Name) else False
             col.check(canon_ in forms and last_ok, R, f"{WA}::PackInteger unsigned termination", "ceil(bit_length / 7) bytes, continuation on all but the last",
                       f"the number of groups is `{canon_}` (expected ceil(bit_length/7), unclamped) / the last-byte test is not `i + 1 < count`: values needing more groups are truncated or get a stray continuation bit", WA, lp)
         elif kind == "unsigned":
@@ -189,10 +192,13 @@ def check_encoder_shape(model, col, R):
             wrong = []
             if ifs and isinstance(lp.test, ast.Constant):
                 good = True
+                from ..sem import local_env as _le19b, resolve as _rs19
+
+                test19 = _rs19(ifs[0].test, {k: v for k, v in _le19b(pi).items() if k not in (vname, bname)})
                 for rest in (0, -1, 1, -2, 37, -100):
                     for byte in (0x00, 0x01, 0x3F, 0x40, 0x41, 0x7F):
                         try:
-                            stop = bool(ev(ifs[0].test, {vname: rest, bname: byte}))
+                            stop = bool(ev(test19, {vname: rest, bname: byte}))
                         except CannotEval:
                             stop = None
                         want = (rest == 0 and not byte & 0x40) or (rest == -1 and bool(byte & 0x40))
